@@ -206,7 +206,7 @@ class HSMCertificateV2ElementSGXAttestationKey(HSMCertificateV2Element):
         return {
             "name": self.name,
             "type": "sgx_attestation_key",
-            "message": self.message.get_raw_data().hex(),
+            "message": self._message.hex(),
             "key": self.key.to_string("uncompressed").hex(),
             "auth_data": self.auth_data,
             "signature": self.signature,
